@@ -51,7 +51,7 @@ def main():
     """the parent never imports RSOME or an engine (forking after engine threads exist can deadlock)"""
     n = int(sys.argv[2]) if len(sys.argv) > 2 else 24
     bad = 0
-    for mod_name in MACHINES:
+    for mod_name in (os.environ.get('VERIF_SELFTEST_MACHINES', '').split(',') if os.environ.get('VERIF_SELFTEST_MACHINES') else MACHINES):
         a = child(mod_name, n, 0)
         outs = {'fresh-interpreter-again': child(mod_name, n, 0),
                 'pool-16-workers': child(mod_name, n, 0, 16),
